@@ -22,27 +22,27 @@ theorem TraceOK.at (S : Spec G) {g : G} {tr₁ : List (Op × Resp)} {o : Op} {r 
 
 /-- A program a well-typed client can write: every session is on a lockable collection, uses
 its guard as the types allow and does not leak it with `mem::forget`. -/
-def ProgOK (C : Ctx) (prog : List Stmt) : Prop := ∀ st ∈ prog, StmtOK C st
+def ProgOK (ro : RankOpt) (C : Ctx) (prog : List Stmt) : Prop := ∀ st ∈ prog, StmtOK ro C st
 
 /-- **Main theorem of the family.** -/
-theorem program_hold (n : Nat) (C : Ctx) (prog : List Stmt) (hok : ProgOK C prog) (u : UserSt) :
-    wp (HoldSpec n) (program C prog u)
+theorem program_hold (n : Nat) (ro : RankOpt) (C : Ctx) (prog : List Stmt) (hok : ProgOK ro C prog) (u : UserSt) :
+    wp (HoldSpec n ro) (program C prog u)
       (fun _ g => g.held = Held.empty ∧ g.depth = 0) (fun _ _ => False) {} :=
   program_spec C prog u {} _ _ hok rfl rfl (fun _ _ a b => ⟨a, b⟩)
 
 /-- Every finite execution of such a program is an acceptable trace. -/
-theorem program_traces (n : Nat) (C : Ctx) (prog : List Stmt) (hok : ProgOK C prog) (u : UserSt)
+theorem program_traces (n : Nat) (ro : RankOpt) (C : Ctx) (prog : List Stmt) (hok : ProgOK ro C prog) (u : UserSt)
     {tr : List (Op × Resp)} {out : Outcome Unit UserSt} (hp : Path (program C prog u) tr out) :
-    TraceOK (HoldSpec n) {} tr :=
-  (wp_sound (HoldSpec n) (program_hold n C prog hok u) hp).1
+    TraceOK (HoldSpec n ro) {} tr :=
+  (wp_sound (HoldSpec n ro) (program_hold n ro C prog hok u) hp).1
 
 /-- … and the obligation of each single operation on it holds where it was issued. -/
-theorem program_op_ok (n : Nat) (C : Ctx) (prog : List Stmt) (hok : ProgOK C prog) (u : UserSt)
+theorem program_op_ok (n : Nat) (ro : RankOpt) (C : Ctx) (prog : List Stmt) (hok : ProgOK ro C prog) (u : UserSt)
     {tr₁ tr₂ : List (Op × Resp)} {o : Op} {r : Resp} {out : Outcome Unit UserSt}
     (hp : Path (program C prog u) (tr₁ ++ (o, r) :: tr₂) out)
-    (ha : Admissible (HoldSpec n) {} tr₁) :
-    holdPre (ghostAfter (HoldSpec n) {} tr₁) o :=
-  (program_traces n C prog hok u hp).at (HoldSpec n) ha
+    (ha : Admissible (HoldSpec n ro) {} tr₁) :
+    holdPre ro (ghostAfter (HoldSpec n ro) {} tr₁) o :=
+  (program_traces n ro C prog hok u hp).at (HoldSpec n ro) ha
 
 /-! ### non-vacuity: a concrete nested world, a concrete program, a concrete faulty execution -/
 
@@ -58,12 +58,12 @@ def exProg : List Stmt :=
     .get,
     .ses { coll := 1, api := .scopedTry, mode := .shared, key := .lent, body := [.read 0], exit := .ret } ]
 
-example : ProgOK exC exProg := by
+example : ProgOK none exC exProg := by
   intro st hst
   simp only [exProg, List.mem_cons, List.mem_nil_iff, or_false] at hst
   rcases hst with rfl | rfl | rfl | rfl
   · trivial
-  · refine ⟨rfl, by decide, ?_⟩
+  · refine ⟨rfl, shapeOK_none _ _, by decide, ?_⟩
     intro b hb
     simp only [List.mem_cons, List.mem_nil_iff, or_false] at hb
     rcases hb with rfl | rfl | rfl
@@ -71,7 +71,7 @@ example : ProgOK exC exProg := by
     · show 2 < _; decide
     · trivial
   · trivial
-  · refine ⟨rfl, by decide, ?_⟩
+  · refine ⟨rfl, shapeOK_none _ _, by decide, ?_⟩
     intro b hb
     simp only [List.mem_cons, List.mem_nil_iff, or_false] at hb
     subst hb
